@@ -12,7 +12,8 @@ Early(e, o) == 10 * o.ms < 8 * e.T
 TimedOut(e, o) == o.ms >= e.T
 Bad(e, o) ==
      (IF o.r1 # o.r0 /\ TimedOut(e, o) THEN {"change-not-returned:" \o o.fam} ELSE {})
-  \cup (IF o.r1 # o.r0 /\ Early(e, o) /\ ~o.berr /\ o.br # o.r1 THEN {"returned-stale-result:" \o o.fam} ELSE {})
+  \* (a returned index below the final one means a later write followed: nothing to compare)
+  \cup (IF o.r1 # o.r0 /\ Early(e, o) /\ ~o.berr /\ o.bi = o.i1 /\ o.br # o.r1 THEN {"returned-stale-result:" \o o.fam} ELSE {})
   \cup (IF Early(e, o) /\ ~o.berr /\ ~(o.bi > o.i0) THEN {"returned-without-larger-index:" \o o.fam} ELSE {})
   \cup (IF o.i0 < 1 \/ o.i1 < 1 \/ (~o.berr /\ o.bi < 1) THEN {"zero-index:" \o o.fam} ELSE {})
   \cup (IF o.berr THEN {"blocked-call-error:" \o o.fam} ELSE {})
